@@ -94,6 +94,11 @@ func runSolver(ctx context.Context, s solverSpec, file string, timeoutSec, n int
 	if ctx.Err() != nil {
 		return parseVerdicts("", n), "cancelled"
 	}
+	release := acquireSlot()
+	defer release()
+	if ctx.Err() != nil {
+		return parseVerdicts("", n), "cancelled"
+	}
 	args := s.Args(file, timeoutSec)
 	cctx, cancel := context.WithTimeout(ctx, time.Duration(timeoutSec+5)*time.Second)
 	defer cancel()
